@@ -7,12 +7,13 @@ CONSTANTS
   MinPre = 2
   MinTotal = 6
   Leaky = FALSE
+  ForkBug = "none"
   Alphabet <- AllCmds
   PreAlphabet <- AllCmds
-  Kinds <- EveryKind
+  Kinds <- SimKinds
   Modes <- BothModes
   Fins <- AllFins
-  Ctxs <- BothCtxs
+  Ctxs <- EveryCtx
 INIT Init
 NEXT Next
-INVARIANTS NoForeignTrapAction EntryIsForkImage TrapRule SharedDescriptions Final Emit
+INVARIANTS NoForeignTrapAction EntryIsForkImage PendingCleared ParentTrapOnce ContextDuplicated TrapRule SharedDescriptions Final Emit
